@@ -861,6 +861,12 @@ var _ = late(func() {
 				r.undecided("xsync.Map.Range|callback", fn.Pos(), "the callback handed to sync.Map.Range was not found")
 				return
 			}
+			// the callback's key and value: its parameters, after the receiver when a bound method value is handed over
+			// (typedRangeFunc(f).callUntyped, mapRangeVisitor{f}.visitUntyped)
+			cbParams := cb.Params
+			if cb.Signature.Recv() != nil {
+				cbParams = cbParams[1:]
+			}
 			// a call of the user's function: of f itself (through the capture), or - the callback's body living in a helper
 			// that is handed f (visitTyped(f, key, value)) - of that helper's parameter; recognised by role: a dynamic call of a
 			// two-argument function value that returns bool
@@ -883,7 +889,9 @@ var _ = late(func() {
 				return true
 			}
 			// typestate: number of calls of f (0, 1, 2+)
-			pf := &PF{N: 3, InScope: func(f *ssa.Function) bool { return rootFn(origin(f)).Pkg == rootFn(fn).Pkg && f.Blocks != nil && origin(f) != cb && !token.IsExported(f.Name()) }}
+			pf := &PF{N: 3, InScope: func(f *ssa.Function) bool {
+				return rootFn(origin(f)).Pkg == rootFn(fn).Pkg && f.Blocks != nil && origin(f) != cb && !token.IsExported(f.Name())
+			}}
 			var fcalls []*ssa.Call
 			pf.Instr = func(f *ssa.Function, in ssa.Instruction, q int) (StateSet, bool) {
 				if call, ok := in.(*ssa.Call); ok && isUserCall(call) {
@@ -915,7 +923,7 @@ var _ = late(func() {
 							break
 						}
 						src = argOf(src, di.calls)
-						r.ok(ai < len(cb.Params) && src == ssa.Value(cb.Params[ai]), "xsync.Map.Range|f-arg#"+itoa(ai), call.Pos(), "f must be given the "+[]string{"key", "value"}[ai%2]+" that sync.Map.Range handed to the callback (converted), not "+path(a)+": a value re-read from the map differs from it under concurrent stores and is absent for keys that are not equal to themselves")
+						r.ok(ai < len(cbParams) && src == ssa.Value(cbParams[ai]), "xsync.Map.Range|f-arg#"+itoa(ai), call.Pos(), "f must be given the "+[]string{"key", "value"}[ai%2]+" that sync.Map.Range handed to the callback (converted), not "+path(a)+": a value re-read from the map differs from it under concurrent stores and is absent for keys that are not equal to themselves")
 					}
 				}
 			}
